@@ -500,6 +500,7 @@ pub fn install_interceptors(seam: &SeamHandle) {
 }
 
 pub fn clear_thread_seams() {
+    net_hooks::set_sighup_source(None);
     net_hooks::set_uplink_interceptor(None);
     net_hooks::set_client_interceptor(None);
     net_hooks::set_yield_points(false);
